@@ -12,6 +12,7 @@ import (
 
 func (e *Engine) registerIntrinsics() {
 	e.intrinsics["(io.Writer).Write"] = intrWriterWrite
+	e.intrinsics["(net.Conn).Write"] = intrWriterWrite // net.Conn embeds io.Writer: same assumed model
 	e.intrinsics["(*bytes.Buffer).Write"] = intrBufferWrite
 	e.intrinsics["(*bytes.Buffer).Reset"] = intrBufferReset
 	e.intrinsics["(*bytes.Buffer).Bytes"] = intrBufferBytes
